@@ -11,7 +11,7 @@ from .libenv import lib, repo_root
 # property -> (regex selecting site lines, function names whose calls are counted)
 SITES = {
     "C07": (
-        r"def move\(|\.move\(|self\.(line|plane|center_point|points|point_set|segment_set|pyramid_set|convex_polygons)\s*=",
+        r"\.move\(|self\.(line|plane|center_point|points|point_set|segment_set|pyramid_set|convex_polygons)\s*=",
         ("move", "__contains__", "in_", "__eq__", "__hash__", "length", "area", "volume"),
     ),
     "C19": (
